@@ -124,16 +124,17 @@ static void use_word(decoder_t *d, vh_rng *r, const model *m, int mi)
 static void run(long i, vh_rng *r)
 {
     vd_cfg cfg; decoder_t *d; dict_t *dc; const vd_lex *lx = vd_lexicon(VD_EN); model m; snap *sn; int ns = 0, nsamp = 120, k, nops, big = (i % 40 == 7);
-    long uniq = 0; char word[400], pron[1600], npron[1600]; int size0, nok = 0, nrej = 0;
+    long uniq = 0; char word[400], pron[1600], npron[1600]; int size0, nok = 0, nrej = 0, nboundary = 0;
     memset(&m, 0, sizeof(m));
     vd_cfg_default(&cfg, VD_EN);
     d = vd_decoder_fresh(&cfg);
     if (!d) { vh_inconc("decoder_init failed"); return; }
     dc = d->dict; size0 = dict_size(dc);
     /* snapshot of pre-existing words (spelling and pronunciation from the harness' own reading of dict.txt) */
-    sn = (snap *)calloc((size_t)nsamp + 8, sizeof(snap));
-    for (k = 0; k < nsamp + 3; ++k) {
-        int li = k < nsamp ? (int)vh_below(r, (uint32_t)lx->n) : vd_lex_find(lx, k == nsamp ? "forward" : k == nsamp + 1 ? "the" : "a");
+    sn = (snap *)calloc((size_t)nsamp + 10, sizeof(snap));
+    for (k = 0; k < nsamp + 5; ++k) {
+        /* random words, three fixed ones, and the two ends of the id range: the words with the lowest and the highest id of the loaded dictionary */
+        int li = k < nsamp ? (int)vh_below(r, (uint32_t)lx->n) : k < nsamp + 3 ? vd_lex_find(lx, k == nsamp ? "forward" : k == nsamp + 1 ? "the" : "a") : vd_lex_find(lx, dict_wordstr(dc, k == nsamp + 3 ? 0 : dict_filler_start(dc) - 1));
         snap *s; if (li < 0) continue;
         s = &sn[ns]; s->word = lx->word[li]; norm_pron(lx->pron[li], npron, sizeof(npron)); s->pron = strdup(npron);
         s->wid = dict_wordid(dc, s->word);
@@ -153,7 +154,7 @@ static void run(long i, vh_rng *r)
             base = -1;
             if (m.n && vh_chance(r, 0.6)) { int t; for (t = 0; t < 20 && base < 0; ++t) { int c = (int)vh_below(r, (uint32_t)m.n); size_t L = strlen(m.w[c].word); if (m.w[c].base == c && L && m.w[c].word[L - 1] != ')') base = c; } }   /* a true base word, not itself an alternate */
             if (base >= 0) snprintf(word, sizeof(word), "%s(%d)", m.w[base].word, 20 + (int)(++uniq % 100000));
-            else { const char *bw = sn[vh_below(r, (uint32_t)ns)].word; char bb[200]; vd_base_word(bw, bb, sizeof(bb)); snprintf(word, sizeof(word), "%s(%ld)", bb, 900 + ++uniq); base = -2; if (dict_wordid(dc, bb) == BAD_S3WID) expect_ok = 0; }
+            else { const char *bw = (nboundary < 2 && ns >= 2) ? sn[ns - 1 - nboundary++].word : sn[vh_below(r, (uint32_t)ns)].word; char bb[200]; vd_base_word(bw, bb, sizeof(bb)); snprintf(word, sizeof(word), "%s(%ld)", bb, 900 + ++uniq); base = -2; if (dict_wordid(dc, bb) == BAD_S3WID) expect_ok = 0; }
         }
         else if (u < 0.62) { kind = 2; if (m.n && vh_chance(r, 0.5)) snprintf(word, sizeof(word), "%s", m.w[vh_below(r, (uint32_t)m.n)].word); else snprintf(word, sizeof(word), "%s", sn[vh_below(r, (uint32_t)ns)].word); rand_pron(r, d, 3, pron, sizeof(pron), 0); expect_ok = 0; }   /* duplicate */
         else if (u < 0.67) { kind = 3; snprintf(word, sizeof(word), "nobase%ld(2)", ++uniq); rand_pron(r, d, 3, pron, sizeof(pron), 0); expect_ok = 0; }                  /* alternate without base */
